@@ -34,7 +34,7 @@
 (*         entries a router load installed, whether written data was zero) *)
 (*   c[12] <<x, y>> as addressed in the datagram (255,255 = "the root")    *)
 (***************************************************************************)
-EXTENDS Integers, Sequences, FiniteSets, TLC
+EXTENDS Integers, Sequences, FiniteSets, SequencesExt, TLC
 
 SdramBase == 1610612736             \* 0x60000000
 StIdle == 15  StWait == 5  StRun == 7  StSync0 == 8  StSync1 == 9  StPause == 10  StExit == 11
@@ -118,7 +118,8 @@ RtrClear(s, x, y, app) ==
 \* the longest run of untaken positions among 1 .. RtrSize - 1 = the widest gap between neighbouring taken ones
 LargestFree(s, x, y) ==
     LET B == {0, RtrSize} \cup Taken(s, x, y)
-        gaps == { pr[2] - pr[1] - 1 : pr \in { q \in B \X B : q[1] < q[2] /\ ~\E t \in B : q[1] < t /\ t < q[2] } }
+        NextIn(b) == CHOOSE t \in B : t > b /\ \A u \in B : u > b => t <= u
+        gaps == { NextIn(b) - b - 1 : b \in B \ {RtrSize} }
     IN CHOOSE g \in gaps : \A g2 \in gaps : g >= g2
 
 Loaded(s, cores, app, wait) ==           \* cores: set of <<x, y, p>>
@@ -178,12 +179,13 @@ MReplyOk(s, heap, chips, c) ==
              /\ \A i \in 1..Len(c[11]) : c[11][i][1] = Num(c[7]) + i - 1
       [] OTHER -> TRUE
 
-RECURSIVE Fold(_, _, _, _)
-Fold(s, heap, cmds, i) == IF i > Len(cmds) THEN s ELSE Fold(MStep(s, heap, cmds[i]), heap, cmds, i + 1)
-RECURSIVE RepliesOk(_, _, _, _, _)
+\* the machine's state after a sequence of commands, and whether every answer on the way was the machine's
+\* (FoldLeft evaluates step by step; a hand-written recursion re-evaluates its unevaluated arguments at every
+\* level and takes time exponential in the number of commands)
+Fold(s, heap, cmds, i) == FoldLeft(LAMBDA acc, c : MStep(acc, heap, c), s, cmds)
 RepliesOk(s, heap, chips, cmds, i) ==
-    IF i > Len(cmds) THEN TRUE
-    ELSE MReplyOk(s, heap, chips, cmds[i]) /\ RepliesOk(MStep(s, heap, cmds[i]), heap, chips, cmds, i + 1)
+    FoldLeft(LAMBDA acc, c : [ms |-> MStep(acc.ms, heap, c), ok |-> acc.ok /\ MReplyOk(acc.ms, heap, chips, c)],
+             [ms |-> s, ok |-> TRUE], cmds).ok
 
 ----------------------------------------------------------------------------
 \* WHAT HOLDS OF EVERY REACHABLE MACHINE STATE (checked of the design; re-checked on every state a session visits)
